@@ -214,13 +214,18 @@ def run(ctx):
             continue
         ctx.context = {"card": cards.short(card), "index": i}
 
-        def toy(cfg, n, r, with_cfit=False):
+        def toy(cfg, n, r, with_cfit=False, weighted=None):
             pp = cards.events(card, n, r, classes=False)
             with quiet():
                 d = cfg.data.cal_angle([np.ascontiguousarray(p) for p in pp])
             if with_cfit:
                 d["bg_value"] = r.uniform(0.5, 1.5, n)
                 d["eff_value"] = r.uniform(0.5, 1.0, n)
+            if weighted:
+                w = r.uniform(0.3, 1.7, n)
+                if weighted == "mixed":
+                    w[r.random(n) < 0.12] *= -0.4
+                d["weight"] = w
             return d
 
         def build(opts, seeds, with_cfit=False):
@@ -228,9 +233,11 @@ def run(ctx):
                 cfg = cards.load(card, extra_data=opts)
                 amp = cfg.get_amplitude()
             sets = []
-            for sd in seeds:
+            for j_, sd in enumerate(seeds):
                 r = np.random.default_rng(sd)
-                sets.append((toy(cfg, 61, r, with_cfit), toy(cfg, 150, r, with_cfit), None if with_cfit else toy(cfg, 23, r)))
+                # the second data set carries event weights and (mixed-sign) phase-space weights
+                sets.append((toy(cfg, 61, r, with_cfit, weighted="positive" if j_ else None), toy(cfg, 150, r, with_cfit, weighted="mixed" if j_ else None),
+                             None if with_cfit else toy(cfg, 23, r)))
             return cfg, amp, sets
 
         def evaluate(cfg, amp, dset, points, batch):
